@@ -5,7 +5,7 @@ from fractions import Fraction
 import casadi as ca
 import mpmath as mp
 
-from ..harness import Harness, Claim, HarnessError
+from ..harness import Harness, Claim, HarnessError, StructureChanged
 from ..val import Val
 from .. import val as V
 from ..enc import Ctx
@@ -191,11 +191,11 @@ class CorrectAfterQR(Harness):
         finally:
             casadi.qr = o_qr
         if len(rec) != 1:
-            raise HarnessError(f"sqrt_correct called qr {len(rec)} times")
+            raise StructureChanged(f"sqrt_correct called qr {len(rec)} times")
         if Wp.shape != (nx, nx) or K.shape != (nx, ny) or Ss.shape != (ny, ny):
             raise HarnessError("sqrt_correct returned matrices of unexpected shapes")
         if ca.depends_on(ca.vertcat(ca.vec(ca.SX(Wp)), ca.vec(ca.SX(K)), ca.vec(ca.SX(Ss))), ca.vec(Qf)):
-            raise HarnessError("sqrt_correct uses the orthogonal factor")
+            raise StructureChanged("sqrt_correct uses the orthogonal factor")
         return ca.Function("after_qr", [Rf, Rs, H, W], [ca.SX(Wp), ca.SX(K), ca.SX(Ss), ca.SX(rec[0]), ca.densify(Rf)])
 
     def build_real(self):
